@@ -146,7 +146,7 @@ impl Property for C17 {
             .boxed()
     }
     fn quota(tier: Tier) -> u64 {
-        tier.pick(60_000, 1_200_000)
+        tier.pick(500_000, 10_000_000)
     }
     fn rule() -> String {
         "Histories: one geometry P (any type, same scene generator as C01) is prepared once (concrete type or Geometry enum); \
